@@ -79,6 +79,9 @@ func (sp *SAMLServiceProvider) buildAuthnRequest(includeSig bool) (*etree.Docume
 	}
 
 	doc := etree.NewDocument()
+	// Write carriage returns in text as character references so that the
+	// serialized message matches what was signed.
+	doc.WriteSettings.CanonicalText = true
 
 	// Only POST binding includes <Signature> in <AuthnRequest> (includeSig)
 	if sp.SignAuthnRequests && includeSig {
@@ -340,6 +343,9 @@ func (sp *SAMLServiceProvider) buildLogoutRequest(includeSig bool, nameID string
 	nameId.SetText(sessionIndex)
 
 	doc := etree.NewDocument()
+	// Write carriage returns in text as character references so that the
+	// serialized message matches what was signed.
+	doc.WriteSettings.CanonicalText = true
 
 	if includeSig {
 		signed, err := sp.SignLogoutRequest(logoutRequest)
